@@ -427,7 +427,13 @@ def units(root):
     return [Unit("CostFunction.__call__ composition", u_call), Unit("CostFunction_Chi2._chi2", u_chi2), Unit("log-determinant terms", u_logdet), Unit("negative log-likelihoods", u_nll),
             Unit("parameter constraint costs", u_constraints), Unit("XYFit x->y projection", u_projection), Unit("total = model + data graph nodes", u_total_lambdas),
             Unit("error change reaches the cost (callback wiring, implicit chi2 switch)", u_error_change), Unit("pointwise_version keeps the cost", u_pointwise_version),
-            Unit("is_diagonal is exact (the pointwise cost is chosen only for a truly diagonal covariance; shared with C15)", _shared_is_diagonal)]
+            Unit("is_diagonal is exact (the pointwise cost is chosen only for a truly diagonal covariance; shared with C15)", _shared_is_diagonal),
+            Unit("declared constraints reach the constraint objects unchanged (value, uncertainty, relative flag, indices; shared with C03)", _shared_constraints)]
+
+
+def _shared_constraints(root):
+    from . import c03
+    return c03.u_constraints(root)
 
 
 def _shared_is_diagonal(root):
